@@ -166,6 +166,23 @@ func checkDoc(b []byte, trailing bool) Outcome {
 	})
 }
 
+type publicResult struct {
+	Op  string
+	Got Outcome
+}
+
+// publicSchemaCalls: the text as a schema through the public entry points (C07 robustness on the transition cover).
+func publicSchemaCalls(b []byte) []publicResult {
+	mk := func() *jschema.Schema { return jschema.New("s", b) }
+	return []publicResult{
+		{"Check", guard(func() error { return mk().Check() })},
+		{"Len", guard(func() error { _, e := mk().Len(); return e })},
+		{"GetAST", guard(func() error { _, e := mk().GetAST(); return e })},
+		{"Example", guard(func() error { _, e := mk().Example(); return e })},
+		{"UsedUserTypes", guard(func() error { _, e := mk().UsedUserTypes(); return e })},
+	}
+}
+
 // checkSchemaLex runs the schema scanner alone (hook VerifScan) over b.
 func checkSchemaLex(b []byte) Outcome {
 	_, _, f := jschema.VerifScan(b, false)
@@ -189,6 +206,7 @@ func init() {
 		positions := fs.Bool("positions", false, "also compare error positions (C17)")
 		sut := fs.String("sut", "json", "json: Document.Check; schema: the schema scanner (graph exported from SchemaRef.tla)")
 		notes := fs.String("notes", "", "schema: ndjson of verdict differences (reported, never violations)")
+		robust := fs.Bool("robust", false, "C07: run the text also where the reference is silent; report panics, foreign errors and positions outside the text only")
 		fs.Parse(args)
 		var g graph
 		data, err := os.ReadFile(*gpath)
@@ -219,7 +237,7 @@ func init() {
 				return
 			}
 			want := g.Verdict[t]
-			if want == "unspec" {
+			if want == "unspec" && !*robust {
 				atomic.AddInt64(&unspec, 1)
 				return
 			}
@@ -228,6 +246,13 @@ func init() {
 				got = checkSchemaLex(b)
 			} else {
 				got = checkDoc(b, *trailing)
+			}
+			if *robust {
+				if got.Kind == "panic" || got.Kind == "foreign" || (!got.OK && (got.Pos < 0 || (got.Pos >= len(b) && len(b) > 0))) {
+					atomic.AddInt64(&mism, 1)
+					w.Write(c05Mismatch{Bytes: bytesToInts(b), Trailing: *trailing, Want: want, WantPos: -1, Got: got, What: "robust"})
+				}
+				return
 			}
 			what := ""
 			wantPos := -1
@@ -353,6 +378,14 @@ func init() {
 				}
 				atomic.AddInt64(&transitions, 1)
 				base := append(append([]byte{}, acc[s]...), byte(c))
+				if *robust && *sut == "schema" {
+					for _, pr := range publicSchemaCalls(base) {
+						if pr.Got.Kind == "panic" || pr.Got.Kind == "foreign" || (!pr.Got.OK && pr.Got.Kind == "liberr" && pr.Got.Pos > len(base)) {
+							atomic.AddInt64(&mism, 1)
+							w.Write(c05Mismatch{Bytes: bytesToInts(base), Want: pr.Op, WantPos: -1, Got: pr.Got, What: "robust-public"})
+						}
+					}
+				}
 				sufs := W
 				if !isRep[c] {
 					sufs = append([][]byte{{}}, confusion...)
